@@ -35,7 +35,7 @@ EnumNamesMapBack ==
 Emit == EmitOn =>
   IF phase = "parse"
   THEN PrintT(<<"REPLAY", ToJson([d |-> d, mode |-> "parse", argv |-> argv, upd |-> <<>>, obs |-> ObsP,
-                                   value |-> IF ObsP.outcome = "Ok" THEN Value ELSE [top |-> <<>>, cmd |-> <<>>, sub |-> <<>>],
+                                   value |-> IF ObsP.outcome = "Ok" THEN Value ELSE [top |-> <<>>, cmd |-> <<>>, sub |-> <<>>, cmd2 |-> <<>>, sub2 |-> <<>>],
                                    printed |-> IF ObsP.outcome = "Ok" /\ Printable(Desc, Value) THEN PrintValue(Desc, Value) ELSE <<>>,
                                    printable |-> ObsP.outcome = "Ok" /\ Printable(Desc, Value)])>>)
   ELSE PrintT(<<"REPLAY", ToJson([d |-> d, mode |-> "update", argv |-> argv, upd |-> upd, obs |-> ObsU,
